@@ -417,7 +417,11 @@ func (c *Ctx) checkConverter() {
 		if f.Parent() != nil || !inPkg(f, "mhub2/keeper") {
 			continue
 		}
-		switch f.Name() {
+		nm := f.Name()
+		if a, ok := ana.FuncAlias[f]; ok {
+			nm = a
+		}
+		switch nm {
 		case "ConvertFromExternalValue":
 			from = f
 		case "ConvertToExternalValue":
@@ -481,7 +485,11 @@ func (c *Ctx) checkConverter() {
 		if !wantExtFirst {
 			want = "(18, external decimals)"
 		}
-		r.Check(ok, "C11.convert-truncates", "direction:"+f.Name(), p.Pos(f.Pos()), f.Name()+" converts "+want, f.Name()+" passes the decimals in the wrong direction "+detail+", expected "+want)
+		role := f.Name()
+		if a, isA := ana.FuncAlias[f]; isA {
+			role = a
+		}
+		r.Check(ok, "C11.convert-truncates", "direction:"+role, p.Pos(f.Pos()), f.Name()+" converts "+want, f.Name()+" passes the decimals in the wrong direction "+detail+", expected "+want)
 	}
 	dir(from, true)
 	dir(to, false)
@@ -527,7 +535,11 @@ func (c *Ctx) checkConverter() {
 		// the object is the amount's big integer
 		okShape = okShape && p.Expr(obj, 0) == "Int.BigInt($p2)"
 	}
-	r.Check(okShape, "C11.convert-truncates", "shape:"+conv.Name(), p.Pos(conv.Pos()), "result = amount * 10^to / 10^from on one big integer (multiply, then truncating divide)",
+	convRole := conv.Name()
+	if a, isA := ana.FuncAlias[conv]; isA {
+		convRole = a
+	}
+	r.Check(okShape, "C11.convert-truncates", "shape:"+convRole, p.Pos(conv.Pos()), "result = amount * 10^to / 10^from on one big integer (multiply, then truncating divide)",
 		"the decimals converter is not amount*10^to/10^from (multiply first, then truncating division, nothing added): "+strings.Join(seq, "; "))
 }
 
@@ -554,7 +566,7 @@ func discountFactor(v ssa.Value) ssa.Value {
 func (c *Ctx) decimalsConverter() *ssa.Function {
 	var conv *ssa.Function
 	for _, f := range c.P.Funcs {
-		if f.Parent() != nil || !inPkg(f, "mhub2/keeper") || f.Name() != "ConvertFromExternalValue" {
+		if f.Parent() != nil || !inPkg(f, "mhub2/keeper") || (f.Name() != "ConvertFromExternalValue" && ana.FuncAlias[f] != "ConvertFromExternalValue") {
 			continue
 		}
 		ana.Instrs(f, func(in ssa.Instruction) {
@@ -570,4 +582,56 @@ func (c *Ctx) decimalsConverter() *ssa.Function {
 		})
 	}
 	return conv
+}
+
+// InstallAliases recognises the decimals converter (three parameters uint64, uint64, Int; powers of ten by
+// big.Int.Exp) and its two wrappers (which look the token up and pass its ExternalDecimals and the hub's 18 in
+// one or the other order) by their structure and registers the names the rules use for them.
+func InstallAliases(p *ana.Prog) {
+	var conv *ssa.Function
+	for _, f := range p.Funcs {
+		if f.Parent() != nil || !inPkg(f, "mhub2/keeper") || f.Signature.Recv() != nil || len(f.Params) != 3 {
+			continue
+		}
+		if f.Params[0].Type().String() != "uint64" || f.Params[1].Type().String() != "uint64" {
+			continue
+		}
+		exp := false
+		ana.Calls(f, func(site ssa.CallInstruction, d ana.CalleeDesc) {
+			if d.Pkg == "math/big" && d.Name == "Exp" {
+				exp = true
+			}
+		})
+		if exp {
+			conv = f
+		}
+	}
+	if conv == nil {
+		return
+	}
+	ana.FuncAlias[conv] = "convertDecimals"
+	for _, e := range p.In[conv] {
+		w := e.Caller
+		if w.Parent() != nil || w.Signature.Recv() == nil || !inPkg(w, "mhub2/keeper") || len(e.Site.Common().Args) != 3 {
+			continue
+		}
+		hasChain := false
+		for _, par := range w.Params {
+			if n := ana.NamedOf(par.Type()); n != nil && n.Obj().Name() == "ChainID" {
+				hasChain = true
+			}
+		}
+		if !hasChain {
+			continue
+		}
+		args := e.Site.Common().Args
+		k0, ok0 := args[0].(*ssa.Const)
+		k1, ok1 := args[1].(*ssa.Const)
+		switch {
+		case ok1 && !ok0 && k1.Value != nil && k1.Value.ExactString() == "18":
+			ana.FuncAlias[w] = "ConvertFromExternalValue"
+		case ok0 && !ok1 && k0.Value != nil && k0.Value.ExactString() == "18":
+			ana.FuncAlias[w] = "ConvertToExternalValue"
+		}
+	}
 }
